@@ -125,6 +125,21 @@ def hexital_models(pid, tier):
                          "quick constants; the invariant without the fill exclusion", expect_violation="K02_Holds")]
 
 
+def lifespan_models(pid, tier):
+    """MC_Lifespan: the engine on a list a lifespan trims from the front -- the retained window is the
+    definitional one and, while the property's look-back precondition holds, the readings are those of the
+    untrimmed run; the as-shipped resume rule (resume_zero) must break it; the claim is not vacuous"""
+    q = tier == "quick"
+    consts = ("one of EMA_2/ATR_2/RSI_2/KC_2/OBV/SMA_2/STOCH_2; timeframe none / 2; lifespan %s; streams <= %d over 3 "
+              "candle symbols, gaps {1,2}, chunks 1..3" % (("{2}", 5) if q else ("{2,3}", 6)))
+    return [mc.run_model("MC_Lifespan", "MC_Lifespan", "MC_Lifespan_quick.cfg" if q else "MC_Lifespan.cfg", consts,
+                         timeout=3400),
+            mc.run_model("MC_Lifespan+resume_zero (must fail)", "MC_Lifespan", "MC_Lifespan_dev.cfg",
+                         "quick constants, Dev={resume_zero}", expect_violation="C15_Tail"),
+            mc.run_model("MC_Lifespan witness (claim made on trimmed warmed-up lists)", "MC_Lifespan",
+                         "MC_Lifespan_witness.cfg", "quick constants", expect_violation="Witness")]
+
+
 def run(pid, tier, seed, rng, t0):
     scs = families.scenarios(pid, tier, rng)
     mc_stats, extra, rc_replay = [], {}, 0
@@ -138,6 +153,8 @@ def run(pid, tier, seed, rng, t0):
         mc_stats = engine_models(pid, tier)
     if pid in MGR_PROPS:
         mc_stats, states = manager_models(pid, tier)
+        if pid == "C15":
+            mc_stats += lifespan_models(pid, tier)
         n, bad, sel = replay_manager(pid, tier, states)
         extra["spec_to_code_replayed_states"] = n
         extra["spec_to_code_mismatches"] = len(bad)
